@@ -57,6 +57,21 @@ def gen(rng, thorough):
                        ("second_daemon",)]
         h["id"] = "c02-stale-%d" % k
         hs.append(h)
+    # the 36-hour rule sampled inside the window: the clean-up scan runs at start-up, so the daemon is restarted when the stale
+    # entry is 100000 + x seconds old (must stay) and again when it is older than 36 hours (may go)
+    for k, age in ((3, 100800), (5, 115000), (9, 129000), (12, 129599)):
+        idx += 1
+        h = base(idx, 2, rng)
+        h["script"] = [("inject_kill", 0, k), ("advance", age), ("stop",), ("start",), ("advance", 129700 - age), ("stop",), ("start",), ("advance", 100)]
+        h["id"] = "c02-stale-window-%d" % age
+        hs.append(h)
+    # entries queued while the daemon is down for more than 36 hours are S4 with an old body: the clean-up scan must leave them alone
+    for v in range(2):
+        idx += 1
+        h = base(idx, 3, rng)
+        h["script"] = [("stop",), ("inject", 0), ("inject", 1), ("inject_kill", 2, 6), ("advance", 130000 + 1000 * v), ("start",), ("answer", "fifo"), ("advance", 100), ("answer", "fifo")]
+        h["id"] = "c02-down-36h-%d" % v
+        hs.append(h)
     return hs
 
 
